@@ -992,8 +992,10 @@ def merge(fs):
                     warn('%s already in output' % k)
             else:
                 propd = dict([(p, getattr(v, p)) for p in v.ncattrs()])
+                # a copy: the merged file must not share data with fs[1:]
                 outf.createVariable(
-                    k, v.dtype.char, v.dimensions, values=v, **propd)
+                    k, v.dtype.char, v.dimensions, values=v[...].copy(),
+                    **propd)
 
     return outf
 
